@@ -26,11 +26,13 @@ Registry ==
       crossing |-> E({"shape", "num_rivers", "object_type"}, {}),
       teleport |-> E({"shape"}, {}),
       memory |-> E({"shape", "colors"}, {}),
-      memory_rooms |-> E({"shape", "layout", "colors", "num_beacons", "num_exits"}, {})],
+      memory_rooms |-> E({"shape", "layout", "colors", "num_beacons", "num_exits"}, {}),
+      coin_maze |-> E({}, {})],     \* examples/coin_env.py
    transition |->
      [chain |-> E({"transition_functions"}, {}),
       move_agent |-> E({}, {}), turn_agent |-> E({}, {}), pickndrop |-> E({}, {}),
-      move_obstacles |-> E({}, {}), actuate_door |-> E({}, {}), actuate_box |-> E({}, {}), teleport |-> E({}, {})],
+      move_obstacles |-> E({}, {}), actuate_door |-> E({}, {}), actuate_box |-> E({}, {}), teleport |-> E({}, {}),
+      collect_coin_transition |-> E({}, {})],
    reward |->
      [reduce |-> E({"reward_functions", "reduction"}, {}),
       reduce_sum |-> E({"reward_functions"}, {}),
@@ -44,13 +46,15 @@ Registry ==
       bump_into_wall |-> E({}, {"reward"}),
       actuate_door |-> E({}, {"reward_open", "reward_close"}),
       pickndrop |-> E({"object_type"}, {"reward_pick", "reward_drop"}),
-      reach_exit_memory |-> E({}, {"reward_good", "reward_bad"})],
+      reach_exit_memory |-> E({}, {"reward_good", "reward_bad"}),
+      collect_coin_reward |-> E({}, {"reward"})],
    terminating |->
      [reduce |-> E({"terminating_functions", "reduction"}, {}),
       reduce_any |-> E({"terminating_functions"}, {}),
       reduce_all |-> E({"terminating_functions"}, {}),
       overlap |-> E({"object_type"}, {}),
-      reach_exit |-> E({}, {}), bump_moving_obstacle |-> E({}, {}), bump_into_wall |-> E({}, {})],
+      reach_exit |-> E({}, {}), bump_moving_obstacle |-> E({}, {}), bump_into_wall |-> E({}, {}),
+      no_more_coins |-> E({}, {})],
    observation |->
      [from_visibility |-> E({"area", "visibility_function"}, {}),
       fully_transparent |-> E({"area"}, {}), partially_occluded |-> E({"area"}, {}),
